@@ -24,33 +24,13 @@
       finalised by failed runs: F12) the statement is refuted by concrete two-run histories.
 -/
 import Gts.Gen.Cli
+import Gts.Spec.CliTable
 import Gts.Model.CacheProto
 import Gts.Props.C13
 namespace Gts.C14
-open Gts.Cache Gts.CacheProto Gts.Gen.Cli
+open Gts.Cache Gts.CacheProto Gts.Gen.Cli Gts.CliTable
 
 /-! ## (A) the generated command table -/
-
-/-- some payload tuple reads the variable bound to the declaration -/
-def covered (c : Command) (d : Decl) : Bool := c.payload.any fun t => t.reads.contains d.var
-
-/-- The explicit exempt list:
-  * `--no-cache` (a switch read only by `if !*nocache`: it selects whether the protocol runs);
-  * the primary input path (first argument of `newIODelegate`): its CONTENT is hashed as the
-    root sum of the entry, and it is read nowhere else;
-  * ``-o`, `--output`` (second argument of `newIODelegate`), provided the variable is read only by
-    `newIODelegate` and `seqio.Detect`, and — when `seqio.Detect` reads it — its effect
-    `filetype` is in the payload (then it is `covered` as well). -/
-def exempt (c : Command) (d : Decl) : Bool :=
-  (d.cls == "opt" && d.long == "no-cache" && d.kind == "Switch" && d.uses == ["if"]) ||
-  (d.var == c.primary && d.uses.all (fun u => u == "newIODelegate" || u == "assign")) ||
-  (d.cls == "opt" && d.long == "output" && d.var == c.output &&
-    d.uses.all (fun u => u == "newIODelegate" || u == "seqio.Detect") &&
-    (!d.uses.contains "seqio.Detect" || covered c d))
-
-/-- the declarations of a command that neither reach the payload nor are exempt -/
-def uncovered (c : Command) : List String :=
-  (c.decls.filter fun d => !(covered c d || exempt c d)).map fun d => c.name ++ ":" ++ d.long
 
 /-- **The cached subcommands are the nineteen the property names** (a new cached command must be
 added to the harness generators, a vanished one is a changed surface). -/
